@@ -609,7 +609,7 @@ fn cmd_fri(args: &[String]) -> i32 {
                         push("circuit-rejects-native-accepts");
                     }
                     if let Some(v) = verdicts {
-                        v.lock().unwrap().push((gidx, json!({"idx": gidx, "shapes": sh, "log_arities": o.log_arities, "native": nv, "circuit": cv})));
+                        v.lock().unwrap().push((gidx, json!({"idx": gidx, "shapes": sh, "log_arities": o.log_arities, "roots_input": o.roots_input, "roots_commit": o.roots_commit, "native": nv, "circuit": cv})));
                     }
                     // a verifier circuit that cannot be constructed for the statement counts as "rejects"
                     if o.native.ok == o.circuit.ok && !o.native.panicked && !o.circuit.panicked {
